@@ -145,6 +145,11 @@ struct ItemSpec {
     /// statement that is not such a guard
     #[serde(default)]
     keep_guards: bool,
+    /// R19 (arm projection): in the method's top-level `match`, keep only the arms whose pattern names one of these enum variants;
+    /// all other arms are replaced by ONE trailing arm `_ => vx_rest_tail()` (opaque `Rest` effect).  Sound for contracts of the form
+    /// "when the message is X then ...".
+    #[serde(default)]
+    keep_arms: Vec<String>,
     /// extract this item only when the feature is active
     #[serde(default)]
     only_feature: Option<String>,
@@ -343,6 +348,8 @@ fn match_pat(pat: &syn::Expr, e: &syn::Expr, binds: &mut BTreeMap<String, syn::E
                 && match_pat(&p.receiver, &m.receiver, binds)
                 && p.args.iter().zip(m.args.iter()).all(|(a, b)| match_pat(a, b, binds))
         }
+        (syn::Expr::Index(p), syn::Expr::Index(m)) => match_pat(&p.expr, &m.expr, binds) && match_pat(&p.index, &m.index, binds),
+        (syn::Expr::Field(p), syn::Expr::Field(m)) => norm_tokens(&p.member.to_token_stream()) == norm_tokens(&m.member.to_token_stream()) && match_pat(&p.base, &m.base, binds),
         (syn::Expr::Paren(p), _) => match_pat(&p.expr, e, binds),
         (_, syn::Expr::Paren(m)) => match_pat(pat, &m.expr, binds),
         (syn::Expr::Reference(p), syn::Expr::Reference(m)) => p.mutability.is_some() == m.mutability.is_some() && match_pat(&p.expr, &m.expr, binds),
@@ -1699,6 +1706,47 @@ fn main() {
                                     m.block.stmts.push(syn::Stmt::Expr(syn::parse_quote!(vx_rest_tail()), None));
                                     rw.rules.insert("R19".into());
                                 }
+                            }
+                        }
+                    }
+                    if !spec.keep_arms.is_empty() {
+                        for ii in im.items.iter_mut() {
+                            if let syn::ImplItem::Fn(m) = ii {
+                                let mut done = false;
+                                for st in m.block.stmts.iter_mut() {
+                                    if let syn::Stmt::Expr(syn::Expr::Match(mt), _) = st {
+                                        let names_variant = |pat: &syn::Pat, n: &str| -> bool {
+                                            let t = norm_tokens(&pat.to_token_stream());
+                                            t.split(|c: char| !(c.is_alphanumeric() || c == '_')).any(|w| w == n)
+                                        };
+                                        let mut kept: Vec<syn::Arm> = vec![];
+                                        let mut dropped_before: Vec<syn::Pat> = vec![];
+                                        for arm in mt.arms.drain(..) {
+                                            let keep = spec.keep_arms.iter().any(|n| names_variant(&arm.pat, n));
+                                            if keep {
+                                                // an earlier dropped arm must not be able to take this arm's messages
+                                                for d in &dropped_before {
+                                                    if matches!(d, syn::Pat::Wild(_) | syn::Pat::Ident(_)) || spec.keep_arms.iter().any(|n| names_variant(d, n)) {
+                                                        die(format!("R19: an arm dropped before `{}` may match the same message", norm_tokens(&arm.pat.to_token_stream())));
+                                                    }
+                                                }
+                                                if arm.guard.is_some() { die("R19: a kept arm has a guard"); }
+                                                kept.push(arm);
+                                            } else {
+                                                dropped_before.push(arm.pat.clone());
+                                            }
+                                        }
+                                        if kept.len() != spec.keep_arms.len() {
+                                            die(format!("lost anchor: keep_arms {:?}: found {} matching arms", spec.keep_arms, kept.len()));
+                                        }
+                                        kept.push(syn::parse_quote!(_ => { vx_rest_tail() }));
+                                        mt.arms = kept;
+                                        rw.rules.insert("R19".into());
+                                        done = true;
+                                        break;
+                                    }
+                                }
+                                if !done { die("lost anchor: keep_arms: no top-level match statement"); }
                             }
                         }
                     }
